@@ -41,13 +41,16 @@ pub mod server {
     use anyhow::anyhow;
     use anyhow::bail;
     use futures::SinkExt;
-    use futures::StreamExt;
+    use tokio::io::AsyncRead;
+    use tokio::io::AsyncReadExt;
     use tokio::net::TcpStream;
-    use tokio_util::codec::FramedRead;
+    use tokio_util::bytes::BytesMut;
+    use tokio_util::codec::Decoder;
     use tokio_util::codec::FramedWrite;
 
     use crate::protocol::socks5::Socks5AuthMethod;
     use crate::protocol::socks5::Socks5CommandType;
+    use crate::protocol::socks5::address;
     use crate::protocol::socks5::codec::Socks5CommandRequestDecoder;
     use crate::protocol::socks5::codec::Socks5InitialRequestDecoder;
     use crate::protocol::socks5::codec::Socks5ServerEncoder;
@@ -57,17 +60,19 @@ pub mod server {
     use crate::protocol::socks5::message::Socks5InitialResponse;
 
     pub async fn no_auth(stream: &mut TcpStream, response: Socks5CommandResponse) -> Result<Socks5CommandRequest> {
-        let (rh, wh) = stream.split();
-        let mut reader = FramedRead::new(rh, Socks5InitialRequestDecoder);
-        let initial_request = reader.next().await.ok_or_else(|| anyhow!("connection closed during the socks5 greeting"))??;
-        let mut reader = FramedRead::new(reader.into_inner(), Socks5CommandRequestDecoder);
+        let (mut rh, wh) = stream.split();
+        let initial_request = read_message(&mut rh, Socks5InitialRequestDecoder, |buf| Ok(if buf.len() < 2 { 2 } else { 2 + buf[1] as usize }))
+            .await?
+            .ok_or_else(|| anyhow!("connection closed during the socks5 greeting"))?;
         let mut writer = FramedWrite::new(wh, Socks5ServerEncoder);
         if !initial_request.auth_methods().contains(&Socks5AuthMethod::NoAuth) {
             writer.send(Box::new(Socks5InitialResponse::new(Socks5AuthMethod::Unaccepted))).await?;
             bail!("no acceptable socks5 authentication method");
         }
         writer.send(Box::new(Socks5InitialResponse::new(Socks5AuthMethod::NoAuth))).await?;
-        let command_request = reader.next().await.ok_or_else(|| anyhow!("connection closed during the socks5 request"))??;
+        let command_request = read_message(&mut rh, Socks5CommandRequestDecoder, |buf| Ok(3 + address::try_decode_at(buf, 3)?))
+            .await?
+            .ok_or_else(|| anyhow!("connection closed during the socks5 request"))?;
         if command_request.command_type == Socks5CommandType::Bind {
             // RFC 1928 reply 07: command not supported
             writer.send(Box::new(Socks5CommandNotSupported)).await?;
@@ -75,5 +80,27 @@ pub mod server {
         }
         writer.send(Box::new(response)).await?;
         Ok(command_request)
+    }
+
+    /// Reads one handshake message to its last byte and no further: whatever the peer has sent behind it (the next
+    /// message, or already the first bytes for the tunnel) stays in the socket for whoever reads next. `length` tells
+    /// how long the message is as far as the bytes present can say, never more than it really is.
+    async fn read_message<R, D>(reader: &mut R, mut decoder: D, length: impl Fn(&BytesMut) -> Result<usize>) -> Result<Option<D::Item>>
+    where
+        R: AsyncRead + Unpin,
+        D: Decoder<Error = anyhow::Error>,
+    {
+        let mut buf = BytesMut::new();
+        loop {
+            let length = length(&buf)?;
+            if buf.len() >= length {
+                return decoder.decode(&mut buf);
+            }
+            let mut more = vec![0; length - buf.len()];
+            if reader.read_exact(&mut more).await.is_err() {
+                return Ok(None);
+            }
+            buf.extend_from_slice(&more);
+        }
     }
 }
